@@ -1,13 +1,16 @@
 #!/bin/bash
-# usage: mutant.sh <patch.diff> <ID> [ID...]   -- apply a property-breaking patch to /repo, run the checks, undo.
+# usage: mutant.sh <patch.diff> <ID> [ID...]   -- apply a property-breaking patch to a scratch worktree of /repo's
+# main, run the checks against it (VERIF_REPO), remove the worktree. /repo itself is not touched and the
+# evidence of the real tree is not overwritten (VCHECK_EVIDENCE_DIR).
 set -u
 patch=$1; shift
-cd /repo || exit 2
-if ! git diff --quiet; then echo "refusing: /repo has uncommitted changes"; exit 2; fi
-git apply "$patch" || { echo "patch does not apply"; exit 2; }
-trap 'git -C /repo checkout -- . ; git -C /repo clean -fdq' EXIT
+wt=$(mktemp -d /tmp/mut.XXXXXX)
+rmdir $wt
+git -C /repo worktree add -q --detach $wt main || exit 2
+trap 'git -C /repo worktree remove --force '$wt' 2>/dev/null; git -C /repo worktree prune' EXIT
+git -C $wt apply "$patch" || { echo "patch does not apply"; exit 2; }
 for id in "$@"; do
-  out=$(VCHECK_EVIDENCE_DIR=/tmp/mutant-evidence /verif/bin/vcheck run "$id" ${TIER:+-tier $TIER} 2>&1); code=$?
+  out=$(VERIF_REPO=$wt VCHECK_EVIDENCE_DIR=/tmp/mutant-evidence /verif/bin/vcheck run "$id" ${TIER:+-tier $TIER} 2>&1); code=$?
   echo "== $(basename $patch) $id exit=$code"
   echo "$out" | grep -E "VIOLATION|rule=|HARNESS-ERROR|KNOWN-FINDING|exhaustive" | head -${LINES_MAX:-8}
 done
